@@ -480,6 +480,16 @@ func (tb *TB) bin(op Op, a, b *Term) *Term {
 			return a
 		}
 	case OpBOr:
+		// byte re-assembly: (x & m1) | (x & m2) = x & (m1|m2), recognising zext/extract/shift forms
+		if xa, ma, ok := tb.maskedForm(a); ok {
+			if xb, mb, ok := tb.maskedForm(b); ok && xa == xb {
+				m := ma | mb
+				if m == mask(w) {
+					return xa
+				}
+				return tb.mk(OpBAnd, w, 0, "", xa, tb.Const(w, m))
+			}
+		}
 		if a.IsConst() {
 			a, b = b, a
 		}
@@ -541,6 +551,32 @@ func (tb *TB) bin(op Op, a, b *Term) *Term {
 		}
 	}
 	return tb.mk(op, w, 0, "", a, b)
+}
+
+// maskedForm recognises terms equal to (x & mask) for a contiguous bit range of x (same width).
+func (tb *TB) maskedForm(t *Term) (*Term, uint64, bool) {
+	w := t.W
+	switch t.Op {
+	case OpBAnd:
+		if t.Args[1].IsConst() {
+			return t.Args[0], t.Args[1].K, true
+		}
+	case OpZExt:
+		e := t.Args[0]
+		if e.Op == OpExtract && e.Args[0].W == w && uint8(e.K&0xff) == 0 {
+			return e.Args[0], mask(e.W), true
+		}
+	case OpShl:
+		if t.Args[1].IsConst() && t.Args[0].Op == OpZExt {
+			e := t.Args[0].Args[0]
+			k := t.Args[1].K
+			if e.Op == OpExtract && e.Args[0].W == w && uint64(e.K&0xff) == k {
+				return e.Args[0], mask(e.W) << k, true
+			}
+			// zext(x') << k where x' is itself the low part: extract(x, h, 0) shifted is not a mask of x unless k == lo
+		}
+	}
+	return nil, 0, false
 }
 
 func (tb *TB) Add(a, b *Term) *Term  { return tb.bin(OpAdd, a, b) }
@@ -655,6 +691,11 @@ func (tb *TB) Extract(a *Term, hi, lo uint8) *Term {
 	if a.Op == OpExtract {
 		ilo := uint8(a.K & 0xff)
 		return tb.Extract(a.Args[0], hi+ilo, lo+ilo)
+	}
+	// extract of a logical right shift by a constant: select higher bits directly
+	if a.Op == OpLShr && a.Args[1].IsConst() && a.Args[1].K+uint64(hi) < uint64(a.W) {
+		k := uint8(a.Args[1].K)
+		return tb.Extract(a.Args[0], hi+k, lo+k)
 	}
 	// extract low bits of bitwise/add ops over zext: push down for byte(x) patterns
 	if lo == 0 && (a.Op == OpBAnd || a.Op == OpBOr || a.Op == OpBXor || a.Op == OpAdd || a.Op == OpSub) {
